@@ -23,7 +23,8 @@ WIDTHS = {'quick': (2,), 'thorough': (2, 3, 4, 8)}
 
 
 def props(unchecked, *, operator=False, fault=False):
-    sim = ['C01'] + (['C09'] if operator else []) + (['C05'] if fault and not unchecked else []) + (['C15'] if unchecked else [])
+    # C14: the operand shapes of the division / modulo lemmas include literals -- a constant divisor must fault exactly like its run-time twin
+    sim = ['C01'] + (['C09'] if operator else []) + (['C05', 'C14'] if fault and not unchecked else []) + (['C15'] if unchecked else [])
     return {'SIM': tuple(sim), 'INV': ('C08',) + (('C15',) if unchecked else ()), 'NOBOT': ('C03',), 'SAFE': ('C04',),
             'NOERR': ('C10',)}
 
@@ -286,7 +287,7 @@ def tasks(tier):
         for unchecked in (False, True):
             for family, ops in FAMILIES.items():
                 for op in ops:
-                    out.append(task(MOD, 'run_family', ('C01', 'C03', 'C04', 'C05', 'C08', 'C09', 'C10', 'C15'),
+                    out.append(task(MOD, 'run_family', ('C01', 'C03', 'C04', 'C05', 'C08', 'C09', 'C10', 'C15') + (('C14',) if op in ('Div', 'Mod') else ()),
                                     label=f'expr/{family}/{op}/w{w}/u{int(unchecked)}', cost=10 * len(ops[op][0]) * (w if w > 2 else 1),
                                     family=family, op=op, w=w, unchecked=unchecked, tier=tier))
     return out
